@@ -19,7 +19,7 @@ def _key(c, r):
 
 
 RANGE_IDX = {"quick": [3, 5, 6], "thorough": [1, 2, 3, 4, 5, 6]}      # anchor indices of spec/RangesOps.Anchor
-PLURAL_TOK = {"quick": ["1", "2"], "thorough": ["0", "1", "2", "11"]}
+PLURAL_TOK = {"quick": ["0", "1", "2"], "thorough": ["0", "1", "2", "11"]}
 ANCHOR_I32 = ["-2147483648", "-1", "0", "1", "5", "2147483647"]
 ENV = {"x": "X1", "y": "Y2"}
 
@@ -44,7 +44,7 @@ def _prefix_fk(node, prefix):
     return node
 
 
-def _calls_for(keys_sig, tier, path_of, locales):
+def _calls_for(keys_sig, tier, path_of, locales, lean=False):
     """keys_sig: key name -> projected key of the L1 event.  Returns calls + per-call info for the trace."""
     import itertools
     import probe
@@ -68,10 +68,11 @@ def _calls_for(keys_sig, tier, path_of, locales):
                 break
         if choices is None:
             continue
-        for combo in itertools.product(*choices):
+        for ci, combo in enumerate(itertools.product(*choices)):
             counts = dict(zip(cvars, combo))
             for loc in locales:
-                for flav in ("td_string", "td"):
+                # the view flavour is the expensive one to compile: with `lean`, one count choice per key and locale
+                for flav in (("td_string", "td") if (ci == 0 or not lean) else ("td_string",)):
                     args = []
                     for v in sorted(vars_):
                         if v in counts:
@@ -128,7 +129,7 @@ def run_l2(run, cases, l1_trace_path, ngraphs, nfamilies):
         used.append(c)
         ci = len(used)
         sig = loads[c["id"]]["load"]["units"][0]["keys"]
-        calls, inf = _calls_for(sig, run.tier, lambda name: [name], c["cfg"]["locales"])
+        calls, inf = _calls_for(sig, run.tier, lambda name: [name], c["cfg"]["locales"], lean=(run.tier == "quick" and len(sig) > 100))
         projects.append({"name": "c06f%02d" % (len(projects) + 1), "cfg": c["cfg"], "files": c["files"], "calls": calls})
         metas.append({i: dict(v, case=ci) for i, v in inf.items()})
     results, log = probe.build_and_run(run, projects, tag="_c06")
@@ -175,7 +176,7 @@ def gen(run):
     run.notes["spec_mutant_PopulateEntersResolved_FALSE_detected"] = (mut["violated"] == "FinalIsSubst")
     if mut["violated"] != "FinalIsSubst":
         raise vp.ToolError("spec mutant MC_Fk_asimpl was not detected by TLC")
-    fams, res2 = loadfam.gen_cases(run, "MC_FkFamilies", "MC_FkFamilies.cfg", workers=1)
+    fams, res2 = loadfam.gen_cases(run, "MC_FkFamilies", "MC_FkFamilies.cfg" if run.tier == "quick" else "MC_FkFamilies_thorough.cfg", workers=1)
     return graphs, fams
 
 
